@@ -47,13 +47,13 @@ CPU_MODES_THOROUGH = CPU_MODES + [
 ]
 
 PROPS = {
-    "C01": dict(ties=['Schedules', 'Consts'], level="proof", selftest=True, modes=CPU_MODES, thorough=dict(modes=CPU_MODES_THOROUGH),
+    "C01": dict(ties=['Schedules', 'Consts', 'GoIpa.Lemmas.Grouping'], level="proof", selftest=True, modes=CPU_MODES, thorough=dict(modes=CPU_MODES_THOROUGH),
                 rule="openings sets over n in {1..300}, six z patterns (all equal, all distinct, two clusters, single index after a gap, straddling group, random), polynomials zero/constant/unit/sparse/r-1/random, commitments as shared pointers / rescaled / sign-flipped, labels empty..70 bytes; each case under several CPU-count/GOMAXPROCS configurations (taskset)."),
     "C02": dict(ties=['Schedules', 'Consts'], level="proof", selftest=True,
                 rule="honest (label,Cs,zs,ys,proof) tuples and every single-component perturbation, reorderings, dropped/duplicated openings, splices of two honest proofs, malformed shapes, well-formed garbage; each implementation decision also re-evaluated under three re-representations of all group elements."),
     "C03": dict(ties=['Schedules', 'Consts'], level="proof", selftest=True, modes=CPU_MODES, thorough=dict(modes=CPU_MODES_THOROUGH),
                 rule="as C01 plus stand-alone IPA proofs; byte-for-byte comparison of the serialized proof and of the post-proof challenge with the Lean model (which reproduces the published cross-implementation vectors), under several CPU-count/GOMAXPROCS configurations."),
-    "C04": dict(ties=['Schedules', 'Consts'], level="proof", selftest=True, modes=[{"name": "default"}, {"name": "cpu3", "prefix": taskset(3)}, {"name": "cpu6-procs5", "prefix": taskset(6), "env": {"GOMAXPROCS": "5"}}],
+    "C04": dict(ties=['Schedules', 'Consts', 'GoIpa.Lemmas.IpaAlgebra', 'GoIpa.Lemmas.FoldingScalars'], level="proof", selftest=True, modes=[{"name": "default"}, {"name": "cpu3", "prefix": taskset(3)}, {"name": "cpu6-procs5", "prefix": taskset(6), "env": {"GOMAXPROCS": "5"}}],
                 rule="evaluation points 0,1,254,255,256,257,2^64-1,2^64,2^64+1,r-1,r-256,random x polynomials zero/constant/unit/sparse/r-1/random; result p(z) must be accepted, p(z)+1, p(z)-1 and 0 rejected (asserted on the implementation); barycentric value against direct Lagrange evaluation."),
     "C05": dict(ties=['Consts'], level="proof",
                 rule="per basis position and per window position: window values {0,1,2^(w-1)-1,2^(w-1),2^(w-1)+1,2^w-2,2^w-1} x carry-in {0,1}; all-ones carry chains; r-1, r-2, powers of two; single hot coefficient at the basis positions; short vectors; dense random; linearity/update triples; audit of precomputed table entries against (j+1)2^(wk)G_i."),
@@ -89,7 +89,7 @@ PROPS = {
                 rule="byte strings of every length 0..64 for the three decoders; values 0,1,r-1,r,r+1,2r-1,2r,p,2^256-1 in 32/33/40/64-byte encodings; canonical and just-non-canonical 32-byte values; the caller's buffer is compared before/after and decoded twice."),
     "C17": dict(level="proof",
                 rule="0,1,2,4,5,7,p-1,p-2,-5,d; every 2^k-th root of unity (k=0..32) and products with odd-order elements; every 8-bit value in each of the four discrete-log blocks with the other blocks zero/random/odd/even; random squares and non-squares in equal share; point recovery for random x with both sign requests."),
-    "C18": dict(ties=['Consts'], level="proof", modes=[{"name": "default"}, {"name": "cpu3", "prefix": taskset(3)}, {"name": "cpu7-procs5", "prefix": taskset(7), "env": {"GOMAXPROCS": "5"}}],
+    "C18": dict(ties=['Consts', 'GoIpa.Lemmas.DivideOnDomain'], level="proof", modes=[{"name": "default"}, {"name": "cpu3", "prefix": taskset(3)}, {"name": "cpu7-procs5", "prefix": taskset(7), "env": {"GOMAXPROCS": "5"}}],
                 rule="both precomputed tables (512+510 entries); f in {random, unit vectors, constant, r-1, zero, X^255}; z in {256,257,r-1,2^200,random}: inner product with barycentric coefficients against direct Lagrange evaluation; DivideOnDomain for all 256 indices against the model and the defining relation q_i (i-k) = f_i - f_k."),
     "C19": dict(level="proof", race=True, modes=[{"name": "default"}, {"name": "conc16", "args": ["-conc", "16"], "workers": 1, "filter": "^batch ", "env": {"VERIF_BATCH_REPEAT": "40"}}],
                 rule="element lists of length 0..310 from random histories with repeated pointers (alias), mixed normalised/projective/sign-flipped, identity included: batch serialisers, BatchMapToScalarField, BatchNormalize vs single-element results from the model; one un-normalisable element (Z=0) at each position must fail with nothing modified."),
